@@ -332,6 +332,24 @@ def seeded_scenarios(ctx, n):
                 for dst in ('10.0.0.1', '10.0.0.2', '10.0.0.3', '10.0.0.77'):
                     ops.append(dict(op='inject', kind='udp', v=4, src='10.0.0.9', sport=7, dst=dst, dport=5000, n=rng.randrange(0, 40), seed=rng.randrange(1 << 20)))
                     ops.append(dict(op='readall'))
+            # prefixes that are not byte-aligned: destinations inside, and outside but equal in every whole byte of the prefix
+            import ipaddress
+            cidr = rng.choice(['10.0.0.16/28', '10.1.16.0/20', '10.0.0.128/25', '10.16.0.0/12', '10.0.0.64/27'])
+            net = ipaddress.ip_network(cidr)
+            base = int(net.network_address)
+            size = net.num_addresses
+            cand = [base + 1, base + size - 2, base + size, base - 1, base + size + 5, base ^ (size * 2)]
+            for step in ('addsubnet', 'rmsubnet')[:rng.choice([1, 2, 2])]:
+                ops.append(dict(op=step, nic=1, cidr=cidr))
+                for x in cand:
+                    d = str(ipaddress.ip_address(x & 0xffffffff))
+                    if d in ('10.0.0.1', '10.0.0.2', '10.0.0.3'):
+                        continue
+                    ops.append(dict(op='inject', kind='udp', v=4, src='10.0.0.9', sport=7, dst=d, dport=5000, n=rng.randrange(0, 40), seed=rng.randrange(1 << 20),
+                                    innets=['cidr:' + cidr] if ipaddress.ip_address(d) in net else []))
+                    ops.append(dict(op='readall'))
+            if ops[-2].get('op') == 'inject' and any(o.get('op') == 'addsubnet' and o.get('cidr') for o in ops) and not any(o.get('op') == 'rmsubnet' and o.get('cidr') for o in ops):
+                ops.append(dict(op='rmsubnet', nic=1, cidr=cidr))
             # always: a subnet is taken over and given up again (owned: delivered to the wildcard socket; given up: to nobody)
             for step in ('addsubnet', 'rmsubnet', 'addsubnet', 'rmsubnet')[:rng.choice([2, 4])]:
                 ops.append(dict(op=step, nic=1, prefix='10.1.'))
